@@ -31,7 +31,7 @@ COMPONENTS = {"real": ["ipv8.requestcache.RequestCache/NumberCache/RandomNumberC
 ASSUMPTIONS = ["single-threaded use of RequestCache (its locks are exercised without contention)",
                "asyncio call_soon FIFO and Task cancellation semantics are trusted"]
 REACH = ["race_pop_vs_expiry", "reentrant_pop", "reentrant_add", "shutdown_with_outstanding", "dup_add_refused",
-         "pop_after_timeout_keyerror", "timeout_fired", "future_completed_on_timeout", "handler_hit", "handler_miss"]
+         "pop_after_timeout_keyerror", "readd_same_object", "timeout_fired", "future_completed_on_timeout", "handler_hit", "handler_miss"]
 
 DELAYS = [0.5, 1.0, 1.0, 2.0, 10.0]
 IDS = [("a", 1), ("a", 2), ("b", 1), ("b", 2), ("retrievable", 7)]
@@ -45,8 +45,9 @@ def _random_case(seed: int) -> dict:
     ops = []
     deadlines = []
     for _ in range(n_ops):
-        kind = rng.choices(["add", "pop", "has", "ptadd", "wait_for", "clear", "shutdown", "handler", "register_dup"],
-                           [30, 25, 8, 6, 5, 3, 3, 12, 4])[0]
+        kind = rng.choices(["add", "pop", "has", "ptadd", "wait_for", "clear", "shutdown", "handler", "register_dup", "readd_same",
+                            "add_shared_future"],
+                           [30, 25, 8, 6, 5, 3, 3, 12, 4, 4, 3])[0]
         if deadlines and rng.random() < 0.6:
             t = rng.choice(deadlines) + rng.choice([-2e-4, -2e-5, -1e-6, 0.0, 0.0, 1e-6, 2e-5, 2e-4, 1e-3])
         else:
@@ -308,6 +309,38 @@ def execute(case: dict) -> dict:  # noqa: C901, PLR0915
                 late = Tracked(ident, 1.0, "value", None, None)
                 do_add(ident, 2.0, None, None, None, "add")
                 _finish_add(late, "late-add", None)
+        elif kind == "readd_same":
+            # the caller adds the very object that is already outstanding (an idempotent retry): refused, first intact
+            cur = model.get(ident)
+            if cur is not None:
+                c.probe("readd_same_object")
+                r = rc.add(cur)
+                if st["shutdown_requested"]:
+                    return
+                if r is not None:
+                    c.violate("dup_guard", "duplicate_add_accepted", f"re-add of the outstanding object {ident} accepted")
+                if rc.get(*ident) is not cur:
+                    c.violate("dup_guard", "first_replaced_by_duplicate", f"{ident}")
+                if cur.fut is not None and cur.fut.cancelled():
+                    c.violate("dup_guard", "refused_add_damaged_outstanding_request",
+                              f"the refused re-add of {ident} cancelled the future of the request that is still outstanding")
+                log.append(("readd", ident, "refused"))
+        elif kind == "add_shared_future":
+            # a second cache object for the same identity that shares the caller's future with the outstanding one
+            cur = model.get(ident)
+            if cur is not None and cur.fut is not None and not st["shutdown_requested"]:
+                c.probe("add_shared_future")
+                twin = object.__new__(Tracked)
+                NumberCache.__init__.__wrapped__(twin, rc, *ident) if hasattr(NumberCache.__init__, "__wrapped__") else None
+                twin.__dict__.update({k: v for k, v in cur.__dict__.items()})
+                twin._managed_futures = list(cur._managed_futures)  # noqa: SLF001
+                r = rc.add(twin)
+                if r is not None:
+                    c.violate("dup_guard", "duplicate_add_accepted", f"add of a twin of {ident} accepted")
+                if cur.fut.cancelled():
+                    c.violate("dup_guard", "refused_add_damaged_outstanding_request",
+                              f"the refused add of a second object for {ident} cancelled the outstanding request's future")
+                log.append(("twin", ident, "refused"))
         elif kind == "pop":
             do_pop(ident, "pop")
         elif kind == "has":
